@@ -627,6 +627,25 @@ def wf_path_py(s):
     return bool(s) and not s.startswith("/") and "//" not in s
 
 
+_TRAITS = {}
+
+
+def impl_traits():
+    """Two facts about the implementation under test, observed once: the flags its regex is compiled
+    with, and whether glob() skips a 'prefix/' candidate that is no directory."""
+    if not _TRAITS:
+        from stepup.core.nglob import NamedGlob
+        _TRAITS["flags"] = NamedGlob("x")._regex.flags & re.DOTALL
+        with tempfile.TemporaryDirectory(prefix="verif-c17-") as tmp:
+            with open(os.path.join(tmp, "f"), "w"):
+                pass
+            with contextlib.chdir(tmp):
+                ng = NamedGlob("f/**")
+                ng.glob()
+                _TRAITS["skips_ghosts"] = not ng.files()
+    return _TRAITS
+
+
 def expand_subs(pattern, subs):
     """The pattern with every named wildcard spelled out by its sub-pattern (names must not repeat)."""
     from stepup.core.nglob import RE_ANY_WILD
@@ -648,7 +667,7 @@ def has_recursive_sub(pattern, subs):
 def repaired_regex(pattern, subs, fixes):
     """The regex the implementation would use if the hypothetical repairs in `fixes` were in place."""
     from stepup.core.nglob import convert_nglob_to_regex
-    flags = 0
+    flags = impl_traits()["flags"]
     nm = names_of(pattern)
     if SUBREC in fixes and has_recursive_sub(pattern, subs) and len(nm) == len(set(nm)):
         rx_text = convert_nglob_to_regex(expand_subs(pattern, subs), {})
@@ -661,7 +680,7 @@ def repaired_regex(pattern, subs, fixes):
         if m:
             rx_text = rx_text[:m.start(1)] + "(?=[^/])" + rx_text[m.start(1):]
     if NEWLINE in fixes:
-        flags = re.DOTALL
+        flags |= re.DOTALL
     if DIRS in fixes:
         if not pattern.endswith("/") and not rx_text.endswith("/?") and not rx_text.endswith(".*"):
             rx_text += "/?"
@@ -676,7 +695,7 @@ def clause_holds(c, fixes, clause):
         return False
     existing = set(c.allpaths)
     cands = set(c.std_own)
-    if GHOST in fixes:
+    if GHOST in fixes or impl_traits()["skips_ghosts"]:
         cands &= existing
     rec = {q for q in cands if rx.fullmatch(q)}
     acc = {q for q in existing if rx.fullmatch(q)}
@@ -1001,7 +1020,7 @@ def oracle_update(ctx):
                         except (ValueError, re.error):
                             return False
                         cb, ca = set(std_before), set(std_after)
-                        if GHOST in fixes:
+                        if GHOST in fixes or impl_traits()["skips_ghosts"]:
                             cb &= before
                             ca &= after
                         old = {q for q in cb if rx.fullmatch(q)}
